@@ -2494,7 +2494,7 @@ class quantized_relu(base_quantizer.BaseQuantizer):  # pylint: disable=invalid-n
                                precision=1.0) * neg_factor, -1.0,
                 0.0))
 
-    if self.relu_upper_bound and not self.is_quantized_clip:
+    if self.relu_upper_bound is not None and not self.is_quantized_clip:
       xq = tf.where(xq <= self.relu_upper_bound, xq,
                     tf.ones_like(xq) * self.relu_upper_bound)
 
